@@ -69,6 +69,13 @@ def gen_cases(tier, seed):
                       "jobs": {"CF": [4, 6, 3, 7], "CL": [3, 2, 4, 3], "DL": [7, 6, 9, 7], "DF": [5, 6, 7, 5]}[pipe][(i // 4) % 4],
                       "exact": (i // 4) % 3 == 1,       # input size an exact multiple of the chunk size (reader chain ends on an empty read)
                       "strategies": [gen_strats[(3 * i + k) % len(gen_strats)] for k in range(3)]})
+    # ---- bounded exhaustive exploration of the model at the generated constants (supplement to the theorems):
+    #      every interleaving and every wake-up choice; a deadlock / reuse witness is replayed on the real code
+    ex = [("CL", 2, 2, 1), ("CF", 2, 2, 1), ("CL", 1, 3, 0), ("CF", 1, 2, 0), ("DL", 1, 7, 0), ("DF", 1, 0, 0)]
+    if tier != "quick":
+        ex += [("CL", 3, 2, 1), ("CF", 3, 3, 0), ("CL", 2, 4, 0), ("CF", 2, 4, 1), ("DL", 1, 12, 0)]
+    for pipe, N, jobs, last in ex:
+        cases.append({"kind": "explore", "pipe": pipe, "N": N, "jobs": jobs, "last": last, "outs": "2,1,3,0,2", "seed": 0})
     if tier == "thorough":
         for i in range(4):
             cases.append({"kind": "tsan", "seed": rng.randrange(1 << 48), "fmt": "legacy" if i % 2 else "lz4f",
@@ -460,7 +467,72 @@ def run_sched(st, case):
             res["keys"].append(hashlib.sha1(g[2].encode()).hexdigest())
     return res
 
+def run_explore(st, case):
+    ctx = st["ctx"]
+    orc = st["oracle"]
+    res = {"status": "ok", "kind": "explore", "evals": 0, "keys": [], "stats": collections.Counter()}
+    pipe, N, jobs = case["pipe"], case["N"], case["jobs"]
+    K = st.setdefault("consts", [int(x) for x in orc.ask("consts").split()])
+    depths = {"CL": (K[0], K[1]), "CF": (K[2], K[3]), "DL": (K[4], K[5]), "DF": (K[6], K[7])}[pipe]
+    NB, PB = (K[8] if pipe == "DL" else K[10]), K[11]
+    cfg = [pipe, N, depths[0], depths[1], NB, PB, jobs if pipe in ("CL", "CF") else 0, case["last"],
+           jobs if pipe == "DL" else 0, case["outs"] if pipe == "DF" else "-"]
+    cfg_t = [str(x) for x in cfg]
+    r = orc.ask("explore", *cfg_t, "1500000").split("|")
+    f = dict(x.split("=") for x in r[0].split(" "))
+    res["evals"] = int(f["states"])
+    res["stats"]["explore_states_%s" % pipe] += int(f["states"])
+    res["stats"]["explore_%s_N%d_jobs%d_maxq_t%s_maxq_w%s" % (pipe, N, jobs, f["maxq_t"], f["maxq_w"])] += 1
+    detail = {"cfg": cfg_t, "result": r[0]}
+    bad = None
+    if int(f["deadlocks"]) > 0:
+        bad = ("deadlock", r[1])
+    elif int(f["viol"]) > 0:
+        bad = ("buffer reuse", r[2])
+    elif int(f["err"]) > 0 or f["outputs"] != f["expected"] or int(f["finals"]) == 0:
+        return fail(res, "model exploration at the generated constants: err=%s outputs=%s expected=%s finals=%s" % (f["err"], f["outputs"], f["expected"], f["finals"]), detail)
+    elif pipe in ("CL", "CF") and int(f["maxq_t"]) > 2:
+        return fail(res, "model exploration: tPool queue holds %s jobs (tpool_compress_never_full bound is 2)" % f["maxq_t"], detail, "corr_fail")
+    if bad is None:
+        if f["truncated"] == "0":
+            res["keys"] = [hashlib.sha1(" ".join(cfg_t).encode()).hexdigest()]
+        return res
+    # the model has a bad schedule at the constants of the current source: replay it on the real code
+    what, witness = bad
+    detail["witness"] = witness
+    if pipe == "DF":
+        return fail(res, "model exploration finds a %s schedule at the generated constants (LZ4F decoding; not replayed)" % what, detail)
+    MB = 1 << 20
+    chunk = 8 * MB if pipe in ("CL", "DL") else 4 * MB
+    rng = random.Random(12345)
+    with mtlib.TmpDir() as d:
+        src = os.path.join(d, "in")
+        size = jobs * chunk + (chunk // 3 if case["last"] else 0) - (chunk // 2 if pipe == "DL" else 0)
+        with open(src, "wb") as fh:
+            fh.write(mtlib.gen_payload(rng, size, "mixed"))
+        legacy = pipe in ("CL", "DL")
+        if pipe == "DL":
+            ref = os.path.join(d, "ref.lz4")
+            if not cli(res, ctx["mt"], ["-f", "-q", "-T1", "-l", src, ref], "MT compression -T1", detail):
+                return res
+            args = ["-d", "-f", "-q", ref, os.path.join(d, "o")]
+        else:
+            args = ["-f", "-q", "-T%d" % N] + (["-l"] if legacy else []) + [src, os.path.join(d, "o")]
+        sched = os.path.join(d, "sched")
+        with open(sched, "w") as fh:
+            fh.write("".join("%s %s\n" % tuple(x.split(":")) for x in witness.split(",")))
+        env = mtlib.shim_env(mode="coop", seed=1, sched=sched, trace=os.path.join(d, "trace"))
+        rc, out, err = mtlib.run([ctx["shim"]] + args, timeout=120, env=env)
+        detail["replay_rc"] = rc
+        detail["replay_stderr"] = err[-600:]
+        if rc in (97, 95) or rc == "timeout":
+            return fail(res, "%s: the schedule found in the model at the constants of the current source reproduces on the real code (%s)"
+                        % (what, mtlib.SHIM_RC.get(rc, rc)), detail)
+        return fail(res, "model exploration finds a %s schedule but the real code does not reproduce it (rc=%s)" % (what, rc), detail, "corr_fail")
+
 def run_case(st, case):
+    if case["kind"] == "explore":
+        return run_explore(st, case)
     if case["kind"] == "sched":
         return run_sched(st, case)
     if case["kind"] == "wr":
